@@ -11,6 +11,8 @@ use once_cell::sync::Lazy;
 
 pub type N = BigUint;
 
+pub mod poly;
+
 pub fn n(x: u64) -> N {
     N::from(x)
 }
@@ -405,6 +407,75 @@ impl Curve {
             let t = f.sub(&f.mul(&f.mul(&r, &r_m_1), &k), &n(1));
             (self.from_jq(&s, &t), Some(false))
         }
+    }
+    /// Names of the intermediate values of the Elligator map that `elligator_preimages` can aim at.
+    pub const ELL_SITES: [&'static str; 9] = ["r", "d*r-(d-a)", "(d-a)*r-d", "den", "num", "num*den", "r-1", "n1=num/den", "n2=r*n1"];
+    /// Field elements r0 for which the named intermediate value of the Elligator map equals `t`
+    /// (both signs of each solution; empty when the defining polynomial has no suitable root).
+    pub fn elligator_preimages(&self, site: usize, t: &N) -> Vec<N> {
+        use poly::*;
+        let f = &*Q;
+        let d_m_a = f.sub(&self.d, &self.a);
+        let r: Poly = vec![n(0), n(1)];
+        let a1: Poly = vec![f.neg(&d_m_a), self.d.clone()];
+        let a2: Poly = vec![f.neg(&self.d), d_m_a.clone()];
+        let den = mul(f, &a1, &a2);
+        let num: Poly = vec![self.a_m_2d.clone(), self.a_m_2d.clone()];
+        let tt: Poly = vec![t.clone()];
+        let p = match site {
+            0 => sub(f, &r, &tt),
+            1 => sub(f, &a1, &tt),
+            2 => sub(f, &a2, &tt),
+            3 => sub(f, &den, &tt),
+            4 => sub(f, &num, &tt),
+            5 => sub(f, &mul(f, &num, &den), &tt),
+            6 => sub(f, &r, &vec![f.add(t, &n(1))]),
+            7 => sub(f, &num, &scale(f, &den, t)),
+            _ => sub(f, &mul(f, &r, &num), &scale(f, &den, t)),
+        };
+        let zinv = f.inv(&self.zeta).unwrap();
+        let mut out = Vec::new();
+        for root in roots(f, &p) {
+            if let Some(r0) = f.sqrt(&f.mul(&root, &zinv)) {
+                out.push(f.neg(&r0));
+                out.push(r0);
+            }
+        }
+        out.sort();
+        out.dedup();
+        out
+    }
+    /// Names of the intermediate values of decoding that `decode_preimages` can aim at.
+    pub const DEC_SITES: [&'static str; 6] = ["s^2", "u1=1-s^2", "u2=u1^2-4d*s^2", "u2*u1^2", "1+s^2", "2*s*u1 (squared)"];
+    /// Field elements s (both signs) for which the named intermediate value of decoding equals `t`.
+    pub fn decode_preimages(&self, site: usize, t: &N) -> Vec<N> {
+        use poly::*;
+        let f = &*Q;
+        // polynomials in w = s^2 (a = -1)
+        let w: Poly = vec![n(0), n(1)];
+        let u1: Poly = vec![n(1), f.neg(&n(1))];
+        let d4 = f.mul(&n(4), &self.d);
+        let u2 = sub(f, &mul(f, &u1, &u1), &vec![n(0), d4]);
+        let tt: Poly = vec![t.clone()];
+        let p = match site {
+            0 => sub(f, &w, &tt),
+            1 => sub(f, &u1, &tt),
+            2 => sub(f, &u2, &tt),
+            3 => sub(f, &mul(f, &u2, &mul(f, &u1, &u1)), &tt),
+            4 => sub(f, &vec![n(1), n(1)], &tt),
+            // (2 s u1)^2 = 4 w u1^2 = t^2
+            _ => sub(f, &scale(f, &mul(f, &w, &mul(f, &u1, &u1)), &n(4)), &vec![f.sq(t)]),
+        };
+        let mut out = Vec::new();
+        for root in roots(f, &p) {
+            if let Some(s) = f.sqrt(&root) {
+                out.push(f.neg(&s));
+                out.push(s);
+            }
+        }
+        out.sort();
+        out.dedup();
+        out
     }
     pub fn elligator_spec(&self, r0: &N) -> Pt {
         self.elligator_spec_branch(r0).0
